@@ -189,6 +189,16 @@ def _g1(ctx: Context) -> None:
         cp = compare_parts(n.exprs[0])
         if cp and cp[1] in ("Eq", "NotEq") and ctx.const(f, cp[2], None) == "float":
             nonint_edges += cfg.out_edges(n, ("T",) if cp[1] == "Eq" else ("F",))
+            continue
+        # the same membership question kept in a local (`is_integer = char.format in INTEGER_TYPES ... if not is_integer`)
+        tt = strip_sites(T.of(cfg, n, n.exprs[0]))
+        if tt[0] == "cmp" and tt[1] in (("In",), ("NotIn",)) and tt[2][1][0] == "const":
+            try:
+                coll = set(tt[2][1][1])
+            except TypeError:
+                coll = None
+            if coll is not None and coll >= INTEGER_FORMATS and "float" not in coll:
+                nonint_edges += cfg.out_edges(n, ("F",) if tt[1] == ("In",) else ("T",))
     for n in cfg.nodes:
         a = n.ast
         if n.kind == "stmt" and isinstance(a, ast.Assign) and len(a.targets) == 1 and isinstance(a.targets[0], ast.Attribute) and a.targets[0].attr == "prec":
@@ -289,12 +299,41 @@ def _t1(ctx: Context) -> None:
     if b is not None:
         off, step, v = b["off"], b["step"], b["v"]
         ok_off = match(("call", DEC, (("ifexp", ("cmp", ("IsNot",), (cattr("minValue"), ("const", None))), cattr("minValue"), ("const", 0)),), ()), off) is not None
+        # the same offset through a shared lower bound: L = Decimal(minValue) if minValue is not None else None; L if L is not None else Decimal(0)
+        LOW = ("ifexp", ("cmp", ("IsNot",), (cattr("minValue"), ("const", None))), ("call", DEC, (cattr("minValue"),), ()), ("const", None))
+        ok_off = ok_off or off == ("ifexp", ("cmp", ("IsNot",), (LOW, ("const", None))), LOW, ("call", DEC, (("const", 0),), ()))
         ck.check("C14.T1", ok_off, "offset = Decimal(minValue if minValue is not None else 0)", f"{ctx.fkey(f)}:offset",
                  f"check_convert_value: grid offset is {show(off, 160)}", ctx.loc(f, rn))
         ck.check("C14.T1", step == ("call", DEC, (cattr("minStep"),), ()), "step = Decimal(minStep)", f"{ctx.fkey(f)}:step",
                  f"check_convert_value: step is {show(step, 120)}", ctx.loc(f, rn))
         has_max = contains(v, lambda s: s[0] == "call" and s[1] == ("glob", "max") and ("call", DEC, (cattr("minValue"),), ()) in s[2])
         has_min = contains(v, lambda s: s[0] == "call" and s[1] == ("glob", "min") and ("call", DEC, (cattr("maxValue"),), ()) in s[2])
+        if not (has_max and has_min) and v[0] == "phi":
+            # clamp written with comparisons: `if x <= lower: x = lower` / `if x >= upper: x = upper` before the rounding
+            def mentions(t, a):
+                return contains(t, lambda s_: s_ == ("call", DEC, (cattr(a),), ()))
+
+            lo_nodes = [n for n in cfg.nodes if n.kind == "stmt" and isinstance(n.ast, ast.Assign) and mentions(strip_sites(T.of(cfg, n, n.ast.value)), "minValue")
+                        and not mentions(strip_sites(T.of(cfg, n, n.ast.value)), "maxValue") and n.id != rn.id and cfg.find_path(n.id, rn.id) is not None and isinstance(n.ast.value, ast.Name)]
+            hi_nodes = [n for n in cfg.nodes if n.kind == "stmt" and isinstance(n.ast, ast.Assign) and mentions(strip_sites(T.of(cfg, n, n.ast.value)), "maxValue")
+                        and not mentions(strip_sites(T.of(cfg, n, n.ast.value)), "minValue") and n.id != rn.id and cfg.find_path(n.id, rn.id) is not None and isinstance(n.ast.value, ast.Name)]
+
+            def guarded(nodes, ops, bound):
+                if not nodes:
+                    return False
+                for an in nodes:
+                    es = []
+                    for tn in cfg.nodes:
+                        if tn.kind == "test":
+                            tt = strip_sites(T.of(cfg, tn, tn.exprs[0]))
+                            if tt[0] == "cmp" and len(tt[1]) == 1 and tt[1][0] in ops and mentions(tt[2][1], bound):
+                                es += cfg.out_edges(tn, ("T",))
+                    if not es or cfg.find_path(cfg.entry.id, an.id, avoid_edges=es) is not None:
+                        return False
+                return True
+
+            has_max = guarded(lo_nodes, ("LtE", "Lt"), "minValue")
+            has_min = guarded(hi_nodes, ("GtE", "Gt"), "maxValue")
         ck.check("C14.T1", has_max and has_min, "the value entering the rounding has been clamped to minValue and maxValue",
                  f"{ctx.fkey(f)}:clamp-before-rounding", f"check_convert_value: rounding input is {show(v, 300)} (clamp missing or after rounding)", ctx.loc(f, rn))
         # clamps are guarded by `is not None`
@@ -326,7 +365,7 @@ def _t1(ctx: Context) -> None:
     # finalisation
     fin_int = fin_float = None
     for n in cfg.nodes:
-        if n.kind == "stmt" and isinstance(n.ast, ast.Assign):
+        if (n.kind == "stmt" and isinstance(n.ast, ast.Assign)) or (n.kind == "return" and n.exprs):
             t = strip_sites(T.of(cfg, n, n.ast.value))
             if t[0] == "call" and t[1] == ("glob", "int") and len(t[2]) == 1 and t[2][0][0] == "call" and t[2][0][1][0] == "attr" and t[2][0][1][2] == "to_integral_value":
                 fin_int = n
@@ -343,11 +382,22 @@ def _t1(ctx: Context) -> None:
                     if coll is not None and set(coll) == INTEGER_FORMATS:
                         gate_int += cfg.out_edges(n, ("T",) if m[2] else ("F",))
                         gate_float += cfg.out_edges(n, ("F",) if m[2] else ("T",))
+                    continue
+                tt = strip_sites(T.of(cfg, n, n.exprs[0]))  # the membership kept in a local
+                if tt[0] == "cmp" and tt[1] in (("In",), ("NotIn",)) and tt[2][1][0] == "const":
+                    try:
+                        coll = set(tt[2][1][1])
+                    except TypeError:
+                        coll = None
+                    if coll == INTEGER_FORMATS:
+                        pos = tt[1] == ("In",)
+                        gate_int += cfg.out_edges(n, ("T",) if pos else ("F",))
+                        gate_float += cfg.out_edges(n, ("F",) if pos else ("T",))
         ok = cfg.find_path(cfg.entry.id, fin_int.id, avoid_edges=gate_int) is None and cfg.find_path(cfg.entry.id, fin_float.id, avoid_edges=gate_float) is None
         # every return of the number branch passes one of the two
         rets = [n for n in cfg.nodes if n.kind == "return" and n.id in cfg.reachable_from(rn.id)]
         for r in rets:
-            if cfg.find_path(rn.id, r.id, avoid_nodes=[fin_int.id, fin_float.id]) is not None:
+            if r.id not in (fin_int.id, fin_float.id) and cfg.find_path(rn.id, r.id, avoid_nodes=[fin_int.id, fin_float.id]) is not None:
                 ok = False
     ck.check("C14.T1", ok, "integer formats end in int(val.to_integral_value()), others in float(val)", f"{ctx.fkey(f)}:finalisation",
              "check_convert_value: the int/float finalisation changed (integer formats must yield int, float must yield float)", f.loc())
@@ -411,6 +461,8 @@ def _g2(ctx: Context) -> None:
                 raw, ch = v[2]
                 # raw = the payload value of this iteration, ch = self[char_type] of the same iteration
                 good = raw[0] == "sub" and raw[1][0] == "iter" and ch[0] == "sub" and ch[1] == ("param", "self") and ch[2][0] == "sub" and ch[2][1] == raw[1]
+                # ... or `for key in payload: check_convert_value(payload[key], self[key])`: value and characteristic of the same key
+                good = good or (raw[0] == "sub" and raw[2][0] == "iter" and raw[2][1] == raw[1] and ch == ("sub", ("param", "self"), raw[2]))
                 iid_ok = t[1][1] == ("attr", ch, "iid")
                 good = good and iid_ok
         ok &= good
